@@ -63,6 +63,7 @@ type Walker struct {
 	// condAltFacts memo
 	altMemo map[interface{}][]FactT
 	infMemo map[infKey]bool
+	symOK   bool // constAlts: values that are not small constants are named by their terms
 }
 
 type infKey struct {
